@@ -260,6 +260,10 @@ func c16Prop(c *sim.Case) {
 			}
 			cfg.ConfigurationUri = t.idp.DiscoveryURL()
 			cfg.Logout.RedirectUri = ""
+			if pickBool("own-logout-uri") && !(c16Force && i == 0) {
+				// discovery, but the logout redirect is configured by hand and differs from what the provider publishes
+				cfg.Logout.RedirectUri = "https://sso.example/custom-logout-" + t.name
+			}
 		} else {
 			cfg.AuthorizationUri, cfg.TokenUri = t.idp.AuthURL(), t.idp.TokenURL()
 		}
